@@ -272,6 +272,25 @@ func c07CLI(c *core.Ctx, src, f string) {
 			break
 		}
 	}
+	// lines longer than any reader buffer (4 KiB, 64 KiB) through stdin: same text as in-process, and the
+	// formatter's own output passes -c
+	nl := 700 + c.Rng.Intn(900)
+	long := "nums := [" + strings.Repeat("123456 ", nl) + "]\nprint nums[0] // " + strings.Repeat("c", 66000+c.Rng.Intn(9000)) + "\nm := {" + c07ManyKeys(800) + "}\nprint m\n"
+	if _, lf, ok := formatGuard(c, long); ok {
+		out, errOut, code, err := evyCmd(c, long, "fmt")
+		c.Event("cli_stdin_runs", 1)
+		if err == nil && (code != 0 || out != lf) {
+			c.Violation("stdin-mode-output", fmt.Sprintf("evy fmt reading a source with very long lines from stdin: exit %d (%s), wrote %d bytes, the formatted text has %d: %s", code, firstN(errOut, 100), len(out), len(lf), firstDiff(lf, out)), firstN(long, 300), nil)
+		}
+		if _, errOut, code, err := evyCmd(c, lf, "fmt", "-c"); err == nil && code != 0 {
+			c.Violation("check-rejects-formatted", fmt.Sprintf("evy fmt -c (stdin) exits %d (%s) on the formatter's own output with very long lines", code, firstN(errOut, 200)), firstN(lf, 300), nil)
+		}
+		if _, _, code, err := evyCmd(c, long, "fmt", "-c"); err == nil && (code == 0) != (long == lf) {
+			c.Violation("check-wrong-verdict", fmt.Sprintf("evy fmt -c (stdin) on an unformatted source with very long lines: exit %d", code), firstN(long, 300), nil)
+		}
+	} else {
+		c.Violation("harness-program-rejected", "the long-line source is rejected", firstN(long, 200), nil)
+	}
 	path := filepath.Join(c.Tmp, "c07.evy")
 	for _, tc := range []struct {
 		text string
@@ -401,6 +420,14 @@ func wsVariant(r *rand.Rand, toks []mut.Tok) string {
 				b.WriteString(t.Text)
 			}
 		}
+	}
+	return b.String()
+}
+
+func c07ManyKeys(n int) string {
+	var b strings.Builder
+	for k := 0; k < n; k++ {
+		fmt.Fprintf(&b, "k%d:%d ", k, k)
 	}
 	return b.String()
 }
